@@ -65,11 +65,13 @@ class Spec:
         """obs = parsed implementation line.  Returns None if the observed step is allowed by the property, else a reason.
         Updates the abstract state following the implementation's own choice of which waiter it released."""
         c = self.cells[v]
-        ret = dict(obs["ret"])              # tid -> (rc, value or None)
+        if obs["kind"] == "BUSY":
+            return None if self.blocked(t) else "the harness reports task %d busy but it is not blocked" % t
         if self.blocked(t):
-            return None if obs["kind"] == "BUSY" else "task %d is blocked but the harness let it issue a call" % t
+            return "task %d is blocked but the harness let it issue a call" % t
         if obs["kind"] != "S":
             return "unexpected harness answer %s" % obs["kind"]
+        ret = dict(obs["ret"])              # tid -> (rc, value or None)
         mine = ret.pop(t, None)
         if op in (WRITEF, WRITEEF, WRITEEF_NB) and val > M60:
             if mine != ("OVERFLOW", None) or obs["blocked"]:
